@@ -507,9 +507,9 @@ def orders_for(gates, maxlen):
 
 ORDERS_PER_DRAW = 4
 SETS_QUICK = 130  # per shard: template sets whose orders are enumerated
-SETS_THOROUGH = 150
+SETS_THOROUGH = 350
 RANDOM_QUICK = 1700  # per shard: Hypothesis-drawn template sets, each run under ORDERS_PER_DRAW long random orders
-RANDOM_THOROUGH = 9000
+RANDOM_THOROUGH = 20000
 
 
 def shards(tier):
